@@ -99,13 +99,14 @@ claim("C09",
       "The transfer from streams to files/open rests on FileStream.v (pending) and on replay tolerating one missing entry (checked by the oracle).",
       "Coq proof (frame/record reader case analysis, induction over the frame layout) + checked model/code correspondence + per-frame damage oracle")
 claim("C02",
-      "Coq theorems (PropC02.v, stream level, every block size and checksum function): after a crash at ANY byte of the entry in flight, the record reader delivers every earlier entry and then nothing, "
-      "or one Corruption, or the in-flight entry itself (only when the missing bytes are all zero), never anything else short of a CRC collision between a frame and its own zero-completed prefix; it stops "
-      "at a position from which all bytes are zero and from which newly written entries are read back after the old ones (the recovered log is usable). Through files, metadata cut points (create / set_len / "
-      "unlink) and the observable-state disjunction: decided by the checked correspondence on crash images cut before every kind of event and inside write events, plus an oracle (recovered state = completed "
-      "calls, or those plus the in-flight one, or a partial truncate/delete; continuation workload and clean restart behave as the specification).",
-      "End-to-end file-level theorem pending (see evidence.stated_not_proved); kernel write ordering is assumed as the property states.",
-      "Coq proof (torn-write case analysis on the frame/record reader) + checked model/code correspondence + crash-image oracle")
+      "Coq theorems (PropC02.v), END TO END for every checksum function without zero-completion collisions: C02_crash_atomic - from any state satisfying the global invariant, under a flush-per-operation "
+      "policy, for EVERY crash image of a call (cut between any two file-system effects or after any number of bytes of any write) open succeeds and the recovered abstract state is that of the completed calls, "
+      "or that plus the in-flight call; C02_history from a fresh directory; layers: the I/O trace of a call and the shape of every crash image, open on a torn stream (short last file included), stream-level "
+      "torn-write theorems (torn_read keeps the collision alternative explicit and holds for the real CRC). For the REAL CRC-32 the property is refuted (PropC02x.v, known finding F8: CRC-32 is affine, a torn-off "
+      "payload tail d ++ rawcrc(d) is accepted as zeros) - found by the vacuity audit of these very theorems and reproduced on the crate on every run. Tied to the code by differential execution on crash images "
+      "cut before every kind of event and inside writes, plus a crash oracle with continuation workload and restart.",
+      "Premise no_zero_collision (false for Crc.crc32: F8). Continued use after a recovery that left a torn frame on disk: stream level and oracle only. Kernel write ordering assumed as the property states.",
+      "Coq proof (trace and crash-image shape, open on torn streams, global invariant) + refutation for the real CRC + checked model/code correspondence + crash-image oracle")
 claim("C03",
       "Coq theorems (PropC03.v), END TO END under EVERY policy in both loss models: C03_process_crash / C03_power_loss - from a persist point followed by any further history under any policy, every image of "
       "what had reached the OS (process crash: cut before any event or inside any write) or stable storage (power loss: only writes followed by a sync of their file) opens successfully to the abstract state after "
